@@ -524,8 +524,8 @@ def main():
     par_units = max(1, min(len(units), jobs))
     inner = max(1, jobs // par_units)
     # memory-aware admission: the estimated peak memory (unit option est_gb, default 3) of the units running at the same time stays
-    # below VERIF_MEM_BUDGET_GB (default 44); a unit larger than the budget runs alone
-    budget = float(os.environ.get('VERIF_MEM_BUDGET_GB', '44'))
+    # below VERIF_MEM_BUDGET_GB (default 40); a unit larger than the budget runs alone
+    budget = float(os.environ.get('VERIF_MEM_BUDGET_GB', '40'))
     import threading
     cond = threading.Condition(); in_use = [0.0]
     def admitted(u, keep, inner):
